@@ -85,6 +85,36 @@ def run_case(c):
     return rec
 
 
+IT_CONFS = [{"cond": "ity", "past": 1, "taumax": 2}, {"cond": "ity", "past": 2, "taumax": 1},
+            {"cond": "mit", "past": 1, "taumax": 2}, {"cond": "ity", "past": 2, "taumax": 2},
+            {"cond": "mit", "past": 1, "taumax": 1}]
+
+
+def run_it_case(c):
+    """Conditional information transfer, Gaussian estimator, both lag modes, for every configuration."""
+    from pyunicorn.funcnet import CouplingAnalysis
+    data = np.array(c["data"], dtype=float)
+    rec = dict(c)
+    rec["confs"] = IT_CONFS
+    obs = []
+    for cf in IT_CONFS:
+        o = {"exc_all": "", "exc_max": "", "all": [], "maxv": [], "maxl": []}
+        ca = CouplingAnalysis(data.copy(), silence_level=3)
+        kw = dict(tau_max=cf["taumax"], estimator="gauss", past=cf["past"], cond_mode=cf["cond"])
+        try:
+            o["all"] = enc.arr(ca.information_transfer(lag_mode="all", **kw))
+        except Exception as ex:
+            o["exc_all"] = type(ex).__name__
+        try:
+            v, l = ca.information_transfer(lag_mode="max", **kw)
+            o["maxv"], o["maxl"] = enc.arr(v), enc.ints(l)
+        except Exception as ex:
+            o["exc_max"] = type(ex).__name__
+        obs.append(o)
+    rec["obs"] = obs
+    return rec
+
+
 def _nontrivial(rec):
     col = [r[0] for r in rec["data"]]
     return len(set(col)) > 1
@@ -104,10 +134,19 @@ def main(ctx):
     ctx.extra["scope"] = open(os.path.join(os.path.dirname(__file__), "..", "spec", cfg + ".cfg")).read().split()
     recs = ctx.run_cases("props.c10.run_case", cases)
     ctx.validate("Val_C10", "Val_C10", recs, nontrivial=_nontrivial)
+    # conditional information transfer (Gaussian form): seeded integer data with a lagged dependence
+    itcases = ctx.gen_cached("Gen_C10it", "Gen_C10it_" + ctx.tier)
+    itrecs = ctx.run_cases("props.c10.run_it_case", itcases)
+    ctx.validate("Val_C10it", "Val_C10it", itrecs, stage="Val_C10it", nontrivial=lambda r: True)
 
 
 def replay(ctx, rep):
     rec = rep["record"]
+    if rec["case"].startswith("it"):
+        case = {k: rec[k] for k in ("case", "T", "seed", "data")}
+        itrecs = ctx.run_cases("props.c10.run_it_case", [case], jobs=1)
+        ctx.validate("Val_C10it", "Val_C10it", itrecs, stage="Val_C10it")
+        return
     case = {k: v for k, v in rec.items() if k != "obs"}
     recs = ctx.run_cases("props.c10.run_case", [case], jobs=1)
     ctx.validate("Val_C10", "Val_C10", recs, nontrivial=_nontrivial)
